@@ -296,19 +296,29 @@ def run_raw(spec, ck, runner):
     if not spec.raw_items:
         return 0
     scen = []
-    for i, (name, src) in enumerate(spec.raw_items):
+    for i, item in enumerate(spec.raw_items):
+        name, src = item[0], item[1]
         for cn, cfg in spec.configs:
             c = dict(SAFETY)
             c.update(cfg)
             scen.append({"id": "%d/%s" % (i, cn), "cfg": c, "timeout_ms": 20000, "steps": [{"kind": "eval", "src": src}]})
     res = c01.run_hjs(runner.binary, scen)
     bad = 0
-    for i, (name, src) in enumerate(spec.raw_items):
+    for i, item in enumerate(spec.raw_items):
+        name, src = item[0], item[1]
+        expect = item[2] if len(item) > 2 else None      # closed-form expectation of the generator (list of print lines)
         obs = {}
         for cn, _ in spec.configs:
             r = res["%d/%s" % (i, cn)]
             obs[cn] = (r["steps"][0]["out"], r["steps"][0]["c"]) if "steps" in r else (None, "panic:" + str(r.get("panic") or r.get("abort"))[:160])
         ref = obs[spec.reference]
+        if expect is not None and ref[0] != expect:
+            # the generator states what the program prints; a reference configuration that prints something else is not a
+            # difference between configurations, but it makes the comparison meaningless: report it under its own signature
+            bad += 1
+            ck.failure(json.dumps({"raw": name, "reference-differs-from-expectation": True}, sort_keys=True),
+                       {"program": name, "src": src, "expected": expect, "reference": [ref[0], ref[1]]})
+            continue
         diff = {cn: o for cn, o in obs.items() if o != ref}
         if diff:
             bad += 1
